@@ -196,13 +196,12 @@ fn bytesn_accessors_from_array_to_array() {
 
 // model/bytes.rs:115 `BytesN::is_empty() ensures r == (self@.len() == 0)` together with :107/:113 (`self@.len() == N`): for N == 0 the model
 // says `true`.
-// KNOWN MISMATCH (test kept, ignored): soroban-sdk 25.0.2 bytes.rs:1230 implements `BytesN::is_empty` as the constant `false`, so
+// (FIXED in the model after this test found it.) soroban-sdk 25.0.2 bytes.rs:1230 implements `BytesN::is_empty` as the constant `false`, so
 // `BytesN::<0>::from_array(&e, &[]).is_empty()` is false in the SDK and true in the model.  (No contract in /repo uses BytesN<0>.)
 #[test]
-#[ignore = "model/bytes.rs:115 says BytesN<0>::is_empty() == true, the SDK returns the constant false"]
 fn bytesn0_is_empty() {
     let e = env();
     let b: BytesN<0> = BytesN::from_array(&e, &[]);
     assert_eq!(b.len(), 0);
-    assert_eq!(b.is_empty(), b.len() == 0);
+    assert!(!b.is_empty());   // model/bytes.rs: `BytesN::is_empty ensures !r` (fixed after this test found the mismatch)
 }
